@@ -36,13 +36,24 @@ def _sel(S, K, filt, up_to=False):
     return [k for k in S.edges if K.size(k) == size]
 
 
+_NP = {"rng": None}
+
+
 def _fkw(filt):
-    return {} if filt is None else {filt[0]: filt[1]}
+    if filt is None:
+        return {}
+    v = filt[1]
+    if _NP["rng"] is not None and _NP["rng"].random() < 0.1:
+        import numpy as np
+
+        v = np.int64(v)  # a filter value that comes out of an array
+    return {filt[0]: v}
 
 
 def battery(ctx, h, S, rng, tag=None, wit=None, full=False):
     kind = kind_of(h)
     tag = tag or kind
+    _NP["rng"] = rng
     K = KEYS[kind]
     W = wit or (lambda: {})
 
